@@ -17,6 +17,10 @@ CLAIMED = {
          "abstract interpretation (linear-constraint domain, Fourier-Motzkin entailment) + ordering rules over clang CFGs"),
  "C09": ("Array list: relational numeric abstract interpretation of every function in array_list.inl / array_list.c - all memory operations in bounds for all lengths/indices/element sizes, the five block moves equal their sequence specification, length*item_size <= current_size at every return, growth post-condition re-derived from ensure_capacity's body, no field change on failure, static-mode storage never reallocated, sliced swap covers every byte. Linked list: symbolic-heap abstract interpretation of every list operation over all alias configurations of the touched neighbourhood (adjacent/identical/cross-list nodes, empty lists), checking forward/backward sequence, detachment and frame. Histories of operations and element contents are not decided.",
          "abstract interpretation: linear-constraint numeric domain + symbolic-heap shape domain over clang CFG facts"),
+ "C06": ("Static rules over source/priority_queue.c: who may reorder the element/handle arrays, s_swap rewrites both handles to their new slots (value-flow from slot pointer to stored index), a pushed handle is indexed before sifting, removal invalidates the handle of the departing element in the right order, stale-handle and empty guards dominate the removals, rollback typestate on push, comparator polarity; child/parent index formulas proved mutually inverse and the sliced swap proved in-bounds and covering by the numeric abstract interpreter. Heap order over histories is not decided.",
+         "ordering/value-flow/typestate rules + numeric abstract interpretation over clang CFGs"),
+ "C07": ("Static rules over source/task_scheduler.c (and the library-wide WHO query): only aws_task_run invokes task functions and only the run loop / cancel call it; scheduled cleared before invocation and nothing touched after; every move of a timed task is dominated by timestamp <= current_time of that task and the move loops are left only when nothing is due; private FIFO batch; schedule and cancel step order; has-tasks flag and time; plain timestamp comparator; plus the C06 handle rules the scheduler's cancel relies on. Exactly-once over re-entrant programs is not decided as a run-time fact.",
+         "guard-dominance, ordering and typestate rules over clang CFGs"),
 }
 NA_DEFAULT = "check not built yet in this commit (see DESIGN.md section 9 build order)"
 NA = {}
